@@ -20,6 +20,7 @@ import (
 )
 
 const ProbeSchema = `directive @guard(tag: String) on FIELD_DEFINITION
+directive @mark(tag: String) on FIELD
 directive @goField(forceResolver: Boolean, name: String, omittable: Boolean) on INPUT_FIELD_DEFINITION | FIELD_DEFINITION
 
 interface Node { id: ID! name: String }
@@ -105,7 +106,7 @@ func yaml(layout string, workerLimit int, extra string) string {
 		exec = "exec:\n  layout: follow-schema\n  dir: graph\n  package: graph\n"
 	}
 	exec += fmt.Sprintf("  worker_limit: %d\n", workerLimit)
-	return "schema:\n  - schema.graphqls\n" + exec +
+	return "schema:\n  - \"*.graphqls\"\n" + exec +
 		"model:\n  filename: graph/models_gen.go\n  package: graph\n" +
 		"resolver:\n  layout: follow-schema\n  dir: graph\n  package: graph\n  filename_template: \"{name}.resolvers.go\"\n" +
 		"models:\n  Fragile:\n    model: probe/graph.Fragile\n" + extra
@@ -743,7 +744,7 @@ func BuildProbesRace(schema string, cfgs []Config, extra map[string]string, race
 			defer wg.Done()
 			sem <- struct{}{}
 			defer func() { <-sem }()
-			b, err := probe.Build(probe.Spec{Name: c.Name, Schema: map[string]string{"schema.graphqls": schema}, Config: c.YAML, Extra: extra, Race: race}, false)
+			b, err := probe.Build(probe.Spec{Name: c.Name, Schema: SplitSchema(schema), Config: c.YAML, Extra: extra, Race: race}, false)
 			out[i] = Probe{Cfg: c, Built: b}
 			errs[i] = err
 		}(i, c)
@@ -755,6 +756,42 @@ func BuildProbesRace(schema string, cfgs []Config, extra map[string]string, race
 		}
 	}
 	return out, nil
+}
+
+// SplitSchema puts the directive definitions, scalars and root types into schema.graphqls and every other type into
+// types.graphqls, so that under the follow-schema layout objects and the directives they meet live in different
+// generated files.
+func SplitSchema(schema string) map[string]string {
+	var roots, types []string
+	for _, block := range strings.Split(schema, "\n\n") {
+		t := strings.TrimSpace(block)
+		if t == "" {
+			continue
+		}
+		isRoot := false
+		for _, line := range strings.Split(t, "\n") {
+			l := strings.TrimSpace(line)
+			if l == "" || strings.HasPrefix(l, "#") || strings.HasPrefix(l, "\"") {
+				continue
+			}
+			for _, pre := range []string{"directive ", "scalar ", "schema ", "schema{", "type Query", "type Mutation", "type Subscription", "extend schema"} {
+				if strings.HasPrefix(l, pre) {
+					isRoot = true
+				}
+			}
+			break
+		}
+		if isRoot {
+			roots = append(roots, t)
+		} else {
+			types = append(types, t)
+		}
+	}
+	out := map[string]string{"schema.graphqls": strings.Join(roots, "\n\n") + "\n"}
+	if len(types) > 0 {
+		out["types.graphqls"] = strings.Join(types, "\n\n") + "\n"
+	}
+	return out
 }
 
 // RunAll feeds the cases to one probe process (restarting it after a crash or hang).
